@@ -17,7 +17,8 @@ PROPS = {
              "non-trivial = the case contains a terminator/escape line, blank line, edge newline, empty body, header-looking line, invalid UTF-8, a line > 64 KiB, "
              ">= 10 calls in one test, >= 2 entry kinds in one file, a structured Go value, or pre-existing entries; distinct = distinct canonical JSON",
         assumptions=ASSUME_WB + ["carriage return at the end of a line (documented limitation) is excluded by construction and counted"],
-        stages=[dict(name="replay", run="^TestC01_", quick=1000, thorough=6000, shards_quick=4, shards_thorough=16)],
+        stages=[dict(name="replay", run="^TestC01_", quick=1000, thorough=6000, shards_quick=4, shards_thorough=16),
+                dict(name="fuzz", engine="fuzz", target="FuzzC01Store", run="FuzzC01Store", fuzztime=60, thorough_only=True)],
     ),
     "C02": dict(
         rule="case = (stored value, received value) whose formatted texts differ, API in all five, second process in a non-updating mode "
@@ -29,6 +30,7 @@ PROPS = {
         stages=[
             dict(name="changed", run="^TestC02_Changed$", quick=1500, thorough=20000, shards_quick=4, shards_thorough=16),
             dict(name="k1probe", run="^TestC02K1_", quick=1500, thorough=20000, shards_quick=1, shards_thorough=1),
+            dict(name="fuzz", engine="fuzz", target="FuzzC02Changed", run="FuzzC02Changed", fuzztime=60, thorough_only=True),
         ],
     ),
     "C03": dict(
@@ -198,6 +200,7 @@ PROPS = {
         stages=[
             dict(name="exhaustive", run="^TestC13_Exhaustive$", quick=1, thorough=1, shards_quick=4, shards_thorough=16),
             dict(name="random", run="^TestC13_(Random|Large)$", quick=2500, thorough=30000, shards_quick=4, shards_thorough=16),
+            dict(name="fuzz", engine="fuzz", target="FuzzC13Diff", run="FuzzC13Diff", fuzztime=60, thorough_only=True),
         ],
     ),
 }
